@@ -174,4 +174,19 @@ def isCompatible (major minor _patch : Nat) : Bool := major == versionMajor && m
 def dispatched (o : List Out) : List Packet := o.filterMap fun | .dispatch p => some p | _ => none
 def replies (o : List Out) : List (List Nat) := o.filterMap fun | .reply b => some b | _ => none
 
+/-! ### the client side of the upgrade (protocol/client.rs `ClientBuilder::{connect, unix_connect}`) -/
+
+/-- `if on { flags |= MASK } else { flags &= !MASK }` on a `u8` -/
+def setFlag (flags mask : Nat) (on : Bool) : Nat := if on then flags ||| mask else flags &&& (255 - mask)
+
+/-- the flags byte of the session frame a client sends: over TCP all four options, over the Unix socket only failsafe and
+stream (as the code does) -/
+def clientFlags (unix control command failsafe stream : Bool) : Nat :=
+  let f := if unix then 0 else setFlag (setFlag 0 sessionModeControl control) sessionModeCommand command
+  setFlag (setFlag f sessionModeFailsafe failsafe) sessionModeStream stream
+
+/-- how the daemon reads the two bits that change its behaviour (`Session::is_failsafe`, `is_stream`) -/
+def wantsFailsafe (flags : Nat) : Bool := flags &&& sessionModeFailsafe != 0
+def wantsStream (flags : Nat) : Bool := flags &&& sessionModeStream != 0
+
 end Glonax.Sess
